@@ -75,6 +75,7 @@ class Interp:
     def __init__(self, registry, zs=None):
         self.reg = registry
         self.zs = zs or shared_zs()
+        self.zs.on_intern = lambda fact: (self.path.assume(fact) if getattr(self, 'path', None) is not None else None)
         self.path: Path = None
         self.recfuns = _SHARED['recfuns']   # spec name -> z3 RecFunction / Function (process-wide: z3 names are global)
         self.assumptions = set()    # textual list of assumptions actually used
@@ -144,6 +145,9 @@ class Interp:
                 return len(v.pycls._fields) > 0
             if isinstance(v, VStruct) and v.pycls is not None and (hasattr(v.pycls, '__bool__') or hasattr(v.pycls, '__len__')):
                 raise Unsupported('truth of object with __bool__/__len__')
+            if isinstance(v, VObj) and z3.is_expr(getattr(v, 'term', None)):
+                # an opaque object may be an empty container: its truthiness is an unknown (but fixed) function of the object
+                return self.ufun('obj_truthy', v.term.sort(), z3.BoolSort())(v.term)
             return True
         return bool(v)
 
